@@ -27,7 +27,9 @@ Done      == Fr("msg", NLMSG_DONE, "own", << >>)
 Rule(p)   == Fr("msg", AUDIT_LIST_RULES, "own", p)
 StatusReply(n) == Fr("msg", AUDIT_GET, "own", [i \in 1..n |-> (i * 7) % 256])
 
-Pre     == { << >>, << Noise >>, << Eintr >>, << Noise, Eintr, Noise >> }
+Five    == [i \in 1..5 |-> Eintr]
+\* runs of at most 9 transient failures, but more than 9 in total within one wait
+Pre     == { << >>, << Noise >>, << Eintr >>, << Noise, Eintr, Noise >>, Five \o << Noise >> \o Five }
 Errnos  == { 0, EPERM, EEXIST }
 GoodAck == { p \o << Ack(e) >> : p \in Pre, e \in Errnos }
 BadAck  == { << Foreign >>, << BadType >>, << ShortAck >>, << Hard >>, << ShortGram >>, << Noise >> }
